@@ -106,8 +106,12 @@ def judge(ctx, graphs, label):
     spec = dict(zip(spec_idx, core.lean_lines(spec_in, timeout=1800))) if spec_in else {}
     for i, (g, gl, ll) in enumerate(zip(graphs, go, lean)):
         desc = g.describe()
-        rep = {"kind": "modgraph", "mods": desc["mods"], "family": g.family}
         gf, lf = fields(gl), fields(ll)
+        rep = {"kind": "modgraph", "mods": desc["mods"], "family": g.family,
+               "illegal": {f"{k[0]}#{k[1]}": sorted(g.illegal_reasons(g.mod(k[0]), k[1])) for k in g.stmt_keys()
+                           if k[0] in g.reachable_from_main()},
+               "on_cycle": sorted(m.name for m in g.mods if g.reaches(m.name, m.name)),
+               "want": hexout(lf.get("OUT", ""))}
         fam = g.family.split(":")[0]
         ctx.coverage["family_" + fam] = ctx.coverage.get("family_" + fam, 0) + 1
         if gl.startswith(("CRASH", "HANG", "PANIC", "A=PANIC")) or "D" not in gf:
@@ -303,18 +307,37 @@ def replay(ctx, rep):
     out = core.go_lines("modgraph", [mod_line("modgraph", mods)], timeout=120)[0]
     print("go:", out[:600])
     f = fields(out)
-    want = rep.get("want")
-    bad = out.startswith(("CRASH", "HANG", "PANIC", "A=PANIC"))
-    if want is not None:
-        for b in ("VM", "TREE"):
-            o = progstream.parse_outcome(f.get(b))
-            print(f"{b}: {o.get('cls')} out={o.get('out')!r}   lexical: {want!r}")
-            bad = bad or o["cls"] != "OK" or o.get("out") != want
-    elif not bad:
-        print("(diagnostic case: compare the D= field with the import statements above)")
-        bad = True
+    bad = None
+    if out.startswith(("CRASH", "HANG", "PANIC", "A=PANIC")) or "D" not in f:
+        bad = "the toolchain crashed or hung"
+    else:
+        diags = [d for d in f["D"].split(",") if d]
+        per = {}
+        for d in diags:
+            m = re.match(r"(.+)@(.+)#(\d+|-)$", d)
+            if m and m.group(3) != "-":
+                per.setdefault(f"{m.group(2)}#{m.group(3)}", []).append(m.group(1))
+        for k, reasons in (rep.get("illegal") or {}).items():
+            hard = [r for r in reasons if r != "cycle"]
+            print(f"import statement {k}: generator says {'illegal (' + '/'.join(reasons) + ')' if reasons else 'legal'}; diagnostics: {per.get(k, [])}")
+            if hard and not per.get(k):
+                bad = f"illegal import {k} accepted without a diagnostic"
+            if not reasons and per.get(k) and not (set(per[k]) == {"cyclic"} and k.split("#")[0] in rep.get("on_cycle", [])):
+                bad = f"legal import {k} reported"
+        if any("cycle" in r for r in (rep.get("illegal") or {}).values()) and not any("cyclic" in v for v in per.values()):
+            bad = "cyclic import not reported as cyclic"
+        want = rep.get("want")
+        if not bad and not diags and want is not None:
+            for b in ("VM", "TREE"):
+                o = progstream.parse_outcome(f.get(b))
+                print(f"{b}: {o.get('cls')} out={o.get('out')!r}   lexical: {want!r}")
+                if o["cls"] != "OK" or o.get("out") != want:
+                    bad = f"{b} deviates from lexical per-module resolution"
+        if not bad and "expect_fails" in rep:
+            bad = "witness of a known finding still fails" if witness_fails(mods, want) else None
     if not bad:
         print("replay: property holds on this input now")
         return 0
+    print(f"({bad})")
     print("VIOLATION property=C15 replay=(replayed)")
     return 1
